@@ -221,6 +221,14 @@ def check(rec, kind, idx, rng, tier):
         f = getattr(classify, fname)
         for trial in range(3):
             cls, a = _raster(rng)
+            if kind == 'eqint' and trial == 2 and rng.random() < 0.5:
+                # narrow signed integer rasters whose range exceeds the type's maximum (int16 DEM with the -32768 nodata cell present)
+                dtn = str(rng.choice(['int8', 'int16', 'int32']))
+                ii = np.iinfo(dtn)
+                a = rng.integers(ii.min, int(ii.max) + 1, a.shape).astype(dtn)
+                if rng.random() < 0.5:
+                    a.flat[0] = ii.min; a.flat[-1] = ii.max
+                cls = 'intwide'
             if kind == 'quant' and trial == 1 and a.dtype.kind == 'f' and rng.random() < 0.7:
                 # distinct values that are close relative to their magnitude (large offset, or tiny magnitudes)
                 base_ = rng.integers(0, 60, a.shape) * 0.5
